@@ -10,14 +10,14 @@ storage server, C22); repair itself is download (C02) followed by `upload` with 
 `VCfg.asIs` is the verifier as it was before the fix, `VCfg.repaired` the verifier as it is in /repo now (fix fb3513d =
 fixes/C45-verify-block-root.diff: the block hash tree root is taken from the validated share hash leaf).
 
-As built: 22 theorems (one `_partial`) — `verified_good_implies_all_valid` (+ `verified_good_counterexample` for the old verifier),
+As built: 23 theorems (one `_partial`) — `verified_good_implies_all_valid` (+ `verified_good_counterexample` for the old verifier),
 `healthy_iff_N_good`, `recoverable_iff_k_good`, `corrupt_shares_listed`, `noverify_believes_servers`,
 `recoverable_unhealthy_repair_attempted`, `repair_uses_original_parameters`, `repair_regenerates_identical_shares`,
 `post_repair_healthy_implies_N_good`, `repair_never_alters_good_shares`, `repair_output_is_encoder_output`,
 `repaired_share_passes_ct_stage`, `repaired_share_passes_block_hash_stage`, `repaired_share_passes_share_hash_stage`,
 `repaired_share_block_accepted`, `repaired_share_block_fetch_chain`, `validation_stages_keep_trees_closed`,
 `anchored_repaired_share_delivers_block`, `fresh_repaired_share_delivers_block`, `tail_stages_deliver_block`,
-`readable_from_repaired_shares_partial`. Further model parts: `checkServerShares` /
+`repaired_share_passes_ct_stage_any`, `readable_from_repaired_shares_partial`. Further model parts: `checkServerShares` /
 `checkNoVerify`, `repairDecision`, `repairParams`, `gatherRepairResults`, `corruptLocators`. Driver lean/Drv/C45.lean
 (`veup`, `fmt`, `fmtlists`, `noverify`, `verify`, `repairdecision`, `repairparams`, `postrepair`, `repair`) ties each
 of them to the code. Only partially proved (monitor end to end): that the file can be read from the repaired shares alone. -/
@@ -377,6 +377,28 @@ example (cap : Cap H) : Closed (Node.init H cap).shareTree ∧ Closed (Node.init
   ⟨newTree_closed _, by intro i _ h; exact absurd (get_of_ge (by simp [Node.init])) h,
    fun sh m => by simp [Node.blockTree, Node.init]; exact newTree_closed _⟩
 
+/-- **repaired_share_passes_ct_stage_any**: the crypttext-hash stage lets a repaired share through whether or not the
+    segment's crypttext leaf is already held — not yet held: `repaired_share_passes_ct_stage`; already held (the usual
+    case for the second to k-th share asked for the same segment): in a closed, sibling-closed tree the whole uncle
+    chain is held as well, nothing is requested and the stage passes (`held_leaf_needs_nothing`). `SibClosed`, like
+    `Closed`, holds of every tree built by accepted `set_hashes` calls (C35 `tryBody_sibClosed`). -/
+theorem repaired_share_passes_ct_stage_any (E : Env H) (cfg : Cfg) (prm : Params) (ser : UEB H → Bytes)
+    (encode : Nat → Bytes → Nat → Bytes) (ct : Bytes) (sz : Sizes) (S : Setup E cfg prm ser encode ct sz)
+    (Prep : Published H) (hrep : Prep = upload E prm encode ser ct)
+    (pick : List Nat → Nat) (segnum : Nat) (v : View H) (nd : Node H) (u : UEB H)
+    (hk : nd.known = some (u, sz)) (hlen : nd.ctTree.length = Prep.ctT.length)
+    (hag : Agree nd.ctTree Prep.ctT) (hcl : Closed nd.ctTree) (hsc : SibClosed nd.ctTree) (hseg : segnum < sz.numSegs)
+    (hhonest : ∀ i, i < Prep.ctT.length → v.ctHashes i = Base.Merkle.get Prep.ctT i) :
+    (stageCtHashes E cfg pick segnum v nd).1 = none := by
+  cases hg : Base.Merkle.get nd.ctTree (firstLeafNum sz.numSegs + segnum) with
+  | none =>
+    exact repaired_share_passes_ct_stage E cfg prm ser encode ct sz S Prep hrep pick segnum v nd u hk hlen hag hcl
+      hseg hg hhonest
+  | some w =>
+    have hL : firstLeafNum sz.numSegs + segnum < nd.ctTree.length :=
+      lt_of_get_ne_none (by rw [hg]; simp)
+    rw [stageCtHashes_held_leaf E cfg pick segnum v nd hk hcl hsc hL (by rw [hg]; simp)]
+
 /-- the last three stages (`_satisfy_block_hash_tree`, `_satisfy_ciphertext_hash_tree`, `_satisfy_data_block`) run in
     sequence on a node whose block hash tree for the share is anchored: helper of the two whole-pass theorems -/
 theorem tail_stages_deliver_block (E : Env H) (cfg : Cfg) (prm : Params) (ser : UEB H → Bytes)
@@ -389,7 +411,7 @@ theorem tail_stages_deliver_block (E : Env H) (cfg : Cfg) (prm : Params) (ser : 
     (hnew : Base.Merkle.get (nd.blockTree shnum sz.numSegs) (firstLeafNum sz.numSegs + segnum) = none)
     (hhonest : ∀ i, i < (Prep.blockT shnum).length → v.blockHashes i = Base.Merkle.get (Prep.blockT shnum) i)
     (hctlen : nd.ctTree.length = Prep.ctT.length) (hctag : Agree nd.ctTree Prep.ctT) (hctcl : Closed nd.ctTree)
-    (hctnew : Base.Merkle.get nd.ctTree (firstLeafNum sz.numSegs + segnum) = none)
+    (hctsc : SibClosed nd.ctTree)
     (hcthonest : ∀ i, i < Prep.ctT.length → v.ctHashes i = Base.Merkle.get Prep.ctT i)
     (hblock : v.block = Prep.block shnum segnum)
     (hsize : ¬ (v.block.isEmpty ∨
@@ -412,9 +434,9 @@ theorem tail_stages_deliver_block (E : Env H) (cfg : Cfg) (prm : Params) (ser : 
     unfold firstLeafNum; omega
   have hfull := stageBlockHashes_accept_full S.strict pick shnum segnum v nd hk hL h6
   generalize (stageBlockHashes E cfg pick shnum segnum v nd).2 = nd1 at hk1 hct1 hok1 hcl1 hfull ⊢
-  have h7 := repaired_share_passes_ct_stage E cfg prm ser encode ct sz S Prep hrep pick segnum v nd1 u
+  have h7 := repaired_share_passes_ct_stage_any E cfg prm ser encode ct sz S Prep hrep pick segnum v nd1 u
     (by rw [hk1]; exact hk) (by rw [hct1]; exact hctlen) (by rw [hct1]; exact hctag) (by rw [hct1]; exact hctcl)
-    hseg (by rw [hct1]; exact hctnew) hcthonest
+    (by rw [hct1]; exact hctsc) hseg hcthonest
   rw [runStages_cons_none h7]
   obtain ⟨hk2, hbt2, _⟩ := stageCtHashes_frame E cfg pick segnum v nd1
   have hbt : ∀ m, (stageCtHashes E cfg pick segnum v nd1).2.blockTree shnum m = nd1.blockTree shnum m := by
@@ -444,7 +466,7 @@ theorem anchored_repaired_share_delivers_block (E : Env H) (cfg : Cfg) (prm : Pa
     (hnew : Base.Merkle.get (nd.blockTree shnum sz.numSegs) (firstLeafNum sz.numSegs + segnum) = none)
     (hhonest : ∀ i, i < (Prep.blockT shnum).length → v.blockHashes i = Base.Merkle.get (Prep.blockT shnum) i)
     (hctlen : nd.ctTree.length = Prep.ctT.length) (hctag : Agree nd.ctTree Prep.ctT) (hctcl : Closed nd.ctTree)
-    (hctnew : Base.Merkle.get nd.ctTree (firstLeafNum sz.numSegs + segnum) = none)
+    (hctsc : SibClosed nd.ctTree)
     (hcthonest : ∀ i, i < Prep.ctT.length → v.ctHashes i = Base.Merkle.get Prep.ctT i)
     (hblock : v.block = Prep.block shnum segnum)
     (hsize : ¬ (v.block.isEmpty ∨
@@ -483,9 +505,9 @@ theorem anchored_repaired_share_delivers_block (E : Env H) (cfg : Cfg) (prm : Pa
   have hfull := stageBlockHashes_accept_full S.strict pick shnum segnum v nd hk hL h6
   generalize (stageBlockHashes E cfg pick shnum segnum v nd).2 = nd1 at hk1 hct1 hok1 hcl1 hfull ⊢
   -- crypttext hash tree
-  have h7 := repaired_share_passes_ct_stage E cfg prm ser encode ct sz S Prep hrep pick segnum v nd1 u
+  have h7 := repaired_share_passes_ct_stage_any E cfg prm ser encode ct sz S Prep hrep pick segnum v nd1 u
     (by rw [hk1]; exact hk) (by rw [hct1]; exact hctlen) (by rw [hct1]; exact hctag) (by rw [hct1]; exact hctcl)
-    hseg (by rw [hct1]; exact hctnew) hcthonest
+    (by rw [hct1]; exact hctsc) hseg hcthonest
   rw [runStages_cons_none h7]
   obtain ⟨hk2, hbt2, _⟩ := stageCtHashes_frame E cfg pick segnum v nd1
   have hbt : ∀ m, (stageCtHashes E cfg pick segnum v nd1).2.blockTree shnum m = nd1.blockTree shnum m := by
@@ -545,7 +567,7 @@ theorem fresh_repaired_share_delivers_block (E : Env H) (cfg : Cfg) (prm : Param
     (hbt : nd.blockTree shnum sz.numSegs = newTree H sz.numSegs)
     (hhonest : ∀ i, i < (Prep.blockT shnum).length → v.blockHashes i = Base.Merkle.get (Prep.blockT shnum) i)
     (hctlen : nd.ctTree.length = Prep.ctT.length) (hctag : Agree nd.ctTree Prep.ctT) (hctcl : Closed nd.ctTree)
-    (hctnew : Base.Merkle.get nd.ctTree (firstLeafNum sz.numSegs + segnum) = none)
+    (hctsc : SibClosed nd.ctTree)
     (hcthonest : ∀ i, i < Prep.ctT.length → v.ctHashes i = Base.Merkle.get Prep.ctT i)
     (hblock : v.block = Prep.block shnum segnum)
     (hsize : ¬ (v.block.isEmpty ∨
@@ -602,7 +624,7 @@ theorem fresh_repaired_share_delivers_block (E : Env H) (cfg : Cfg) (prm : Param
     (by rw [(setBlockTree_known nd' shnum _).2.2, hct']; exact hctlen)
     (by rw [(setBlockTree_known nd' shnum _).2.2, hct']; exact hctag)
     (by rw [(setBlockTree_known nd' shnum _).2.2, hct']; exact hctcl)
-    (by rw [(setBlockTree_known nd' shnum _).2.2, hct']; exact hctnew)
+    (by rw [(setBlockTree_known nd' shnum _).2.2, hct']; exact hctsc)
     hcthonest hblock hsize
 
 /-- a two-segment file replicated on two shares (1-of-2, symbolic hashes) for the non-vacuity check of
